@@ -755,6 +755,12 @@ func (m *Monitor) respRefresh(r *mReq, msg *stun.Message, ok bool, code int, I i
 		return
 	}
 	if len(poss) == 0 {
+		if m.serverClosed {
+			// a handler that outlived Server.Close (stalled, or working through requests its
+			// packetiser had buffered) may have made an allocation whose success response could
+			// not be written any more: the wire never showed it, so "none can be alive" is not known
+			return
+		}
 		m.v([]string{"C06", "C04"}, "alive-after-deadline", kv("probe", "refresh"), "Refresh from %s succeeded but no allocation can be alive on that 5-tuple", r.Client)
 		return
 	}
@@ -815,6 +821,12 @@ func (m *Monitor) respCreatePerm(r *mReq, msg *stun.Message, ok bool, code int, 
 		return
 	}
 	if len(poss) == 0 {
+		if m.serverClosed {
+			// a handler that outlived Server.Close (stalled, or working through requests its
+			// packetiser had buffered) may have made an allocation whose success response could
+			// not be written any more: the wire never showed it, so "none can be alive" is not known
+			return
+		}
 		m.v([]string{"C06", "C04"}, "alive-after-deadline", kv("probe", "createperm"), "CreatePermission from %s succeeded without a live allocation", r.Client)
 		return
 	}
@@ -862,6 +874,12 @@ func (m *Monitor) respChannelBind(r *mReq, msg *stun.Message, ok bool, code int,
 		return
 	}
 	if len(poss) == 0 {
+		if m.serverClosed {
+			// a handler that outlived Server.Close (stalled, or working through requests its
+			// packetiser had buffered) may have made an allocation whose success response could
+			// not be written any more: the wire never showed it, so "none can be alive" is not known
+			return
+		}
 		m.v([]string{"C06", "C04"}, "alive-after-deadline", kv("probe", "chanbind"), "ChannelBind from %s succeeded without a live allocation", r.Client)
 		return
 	}
